@@ -645,3 +645,96 @@ Proof.
   destruct (exec_add_spec _ _ _ _ _ _ _ _ _ E) as (_ & _ & _ & _ & _ & mint & _ & _ & AE).
   destruct AE as [tax Hp' _ _ _ _ _ _ _ | n0 Hp' He' _ _ _ _ | n0 dep Hp' _ _ _ HL0 _ _ _ _ _ _]; congruence.
 Qed.
+
+(** ** the pricing kernels of the model, as called by the keeper *)
+Lemma swap_in_rule_lemma a x y fee out :
+  0 < x -> 0 < y -> 0 <= a -> 0 <= fee < P18 ->
+  input_price a x y (P18 - fee) = Ret out ->
+  x * P18 * y <= (x * P18 + a * (P18 - fee)) * (y - out)
+  /\ (x * P18 + a * (P18 - fee)) * (y - (out + 1)) < x * P18 * y
+  /\ 0 <= out <= y.
+Proof.
+  intros Hx Hy Ha Hf H. apply input_price_Ret in H. destruct H as (_ & ->).
+  pose proof P18_pos. rewrite quot_div_nonneg by nia.
+  apply (input_price_rule a x y (P18 - fee) P18); lia.
+Qed.
+
+Lemma swap_out_rule_lemma b x y fee paid :
+  0 < x -> 0 <= b < y -> 0 <= fee < P18 ->
+  output_price b x y (P18 - fee) = Ret paid ->
+  x * P18 * y <= (x * P18 + paid * (P18 - fee)) * (y - b)
+  /\ (forall p, x * P18 * y <= (x * P18 + p * (P18 - fee)) * (y - b) -> paid - 1 <= p)
+  /\ 0 < paid.
+Proof.
+  intros Hx Hb Hf H. apply output_price_Ret in H. destruct H as (_ & ->).
+  pose proof P18_pos. rewrite quot_div_nonneg by nia.
+  apply (output_price_rule b x y (P18 - fee) P18); lia.
+Qed.
+
+(** every leg of every successful swap order is priced by these kernels on the reserves the
+    leg finds, so it obeys the rule there *)
+Lemma priced_rule_lemma (buy : bool) s n din dout paid recv :
+  Inv s -> 0 <= (if buy then recv else paid) ->
+  priced buy s n din dout paid recv ->
+  let x := bal (led s) (pool_acct n) din in
+  let y := bal (led s) (pool_acct n) dout in
+  let ph := P18 - p_fee (par s) in
+  0 < x /\ 0 < y /\ 0 <= paid /\ 0 <= recv <= y
+  /\ x * P18 * y <= (x * P18 + paid * ph) * (y - recv)
+  /\ (if buy then forall p, x * P18 * y <= (x * P18 + p * ph) * (y - recv) -> paid - 1 <= p
+      else (x * P18 + paid * ph) * (y - (recv + 1)) < x * P18 * y).
+Proof.
+  intros I H0 (Hx & Hy & Hp). cbv zeta. pose proof (inv_fee _ I) as Hf. unfold phi in Hp.
+  destruct buy.
+  - destruct Hp as (Hr & Hp).
+    destruct (swap_out_rule_lemma _ _ _ _ _ Hx (conj H0 Hr) Hf Hp) as (A & B & C).
+    repeat split; try assumption; lia.
+  - destruct (swap_in_rule_lemma _ _ _ _ _ Hx Hy H0 Hf Hp) as (A & B & C).
+    repeat split; try assumption; lia.
+Qed.
+
+(** ** the invariant holds at genesis *)
+Lemma nn_of_forallb (l : ledger) : forallb (fun e : (Z * Z) * Z => 0 <=? snd e) l = true ->
+  forall a d, 0 <= bal l a d.
+Proof.
+  intros H a d. unfold bal.
+  match goal with |- 0 <= match ?g with _ => _ end => destruct g as [x|] eqn:E end; [|lia].
+  apply get_In in E. rewrite forallb_forall in H. specialize (H _ E). simpl in H. apply Z.leb_le in H. exact H.
+Qed.
+
+Lemma Inv_genesis (l : ledger) (sp : amap Z Z) (t : Z) (p : params) :
+  forallb (fun e : (Z * Z) * Z => 0 <=? snd e) l = true ->
+  0 <= p_fee p < P18 -> 0 <= p_ufee p <= P18 ->
+  Inv (mkState l sp [] 1 t p).
+Proof.
+  intros Hl Hf Hu. constructor; simpl; auto; try constructor; try lia; try tauto.
+  exact (nn_of_forallb l Hl).
+Qed.
+
+Lemma swap_in_rule_l a x y fee out :
+  0 < x -> 0 < y -> 0 <= a -> 0 <= fee < P18 ->
+  input_price a x y (P18 - fee) = Ret out ->
+  x * P18 * y <= (x * P18 + a * (P18 - fee)) * (y - out) /\ 0 <= out <= y.
+Proof. intros Hx Hy Ha Hf H. destruct (swap_in_rule_lemma a x y fee out Hx Hy Ha Hf H) as (A & _ & C). exact (conj A C). Qed.
+
+Lemma swap_in_maximal_l a x y fee out :
+  0 < x -> 0 < y -> 0 <= a -> 0 <= fee < P18 ->
+  input_price a x y (P18 - fee) = Ret out ->
+  (x * P18 + a * (P18 - fee)) * (y - (out + 1)) < x * P18 * y.
+Proof. intros Hx Hy Ha Hf H. destruct (swap_in_rule_lemma a x y fee out Hx Hy Ha Hf H) as (_ & B & _). exact B. Qed.
+
+Lemma swap_out_rule_l b x y fee paid :
+  0 < x -> 0 <= b < y -> 0 <= fee < P18 ->
+  output_price b x y (P18 - fee) = Ret paid ->
+  x * P18 * y <= (x * P18 + paid * (P18 - fee)) * (y - b) /\ 0 < paid.
+Proof. intros Hx Hb Hf H. destruct (swap_out_rule_lemma b x y fee paid Hx Hb Hf H) as (A & _ & C). exact (conj A C). Qed.
+
+Lemma swap_out_near_minimal_l b x y fee paid :
+  0 < x -> 0 <= b < y -> 0 <= fee < P18 ->
+  output_price b x y (P18 - fee) = Ret paid ->
+  forall p : Z, x * P18 * y <= (x * P18 + p * (P18 - fee)) * (y - b) -> paid - 1 <= p.
+Proof. intros Hx Hb Hf H. destruct (swap_out_rule_lemma b x y fee paid Hx Hb Hf H) as (_ & B & _). exact B. Qed.
+
+(** outcome codes along a history (for the examples) *)
+Fixpoint codes_of (s : state) (ms : list msg) : list Z :=
+  match ms with [] => [] | m :: ms' => code_of s m :: codes_of (step s m) ms' end.
